@@ -6,6 +6,13 @@ package main
 //   FS <rel> d | FS <rel> f <id>     entry of the tree under the served directory `pub/` (rel "2e" = pub itself)
 //   OUT <rel> <id>                   a file NEXT TO pub/ (rel is relative to pub's parent); must never be served
 //   REQ <method> <path> <inm>        one request; URL.Path is set to exactly these bytes
+//   BURST <k> (<method> <path> <inm>)+   k copies of each listed request, all served AT THE SAME TIME by the one
+//                                    instance: with spy=1 the file system holds every request that reaches Open until
+//                                    all k*n of them are either inside Open or finished (a slow disk, slow clients), then
+//                                    lets them go.  What one request gets depends on that request alone — the outcome of
+//                                    every copy is the outcome the request has when it is served alone, however many
+//                                    others are in flight — and the instance is the same afterwards (the REQ lines behind
+//                                    a BURST are served one at a time again).   out: `burst <outcome>;<outcome>;…`
 //   CLEAN <s>  /  JOIN <a> <b>       path.Clean("/"+s), path.Clean(s), does http.Dir refuse s  /  path.Join(a,b)
 //
 // The tree is created per session in a fresh temporary directory outside /repo and /verif and removed
@@ -23,6 +30,9 @@ package main
 
 import (
 	"bytes"
+	"context"
+	"sync"
+	"sync/atomic"
 	"crypto/sha1"
 	"fmt"
 	"io"
@@ -48,12 +58,65 @@ func init() {
 type spyFS struct {
 	fs    http.FileSystem
 	names *[]string
+	mu    *sync.Mutex
+	gate  *atomic.Pointer[burstGate]
 }
 
 func (s spyFS) Open(name string) (http.File, error) {
+	s.mu.Lock()
 	*s.names = append(*s.names, name)
+	s.mu.Unlock()
+	if g := s.gate.Load(); g != nil {
+		g.enter()
+	}
 	return s.fs.Open(name)
 }
+
+// burstGate holds the requests of a burst inside FileSystem.Open until every request of the burst is either held there
+// or has finished without getting that far (other method, other prefix, answered before Open): the moment at which as
+// many requests as possible are inside the middleware at once.  Requests held cannot finish, so before the release the
+// finished ones are exactly those that were never held.
+type burstGate struct {
+	mu                    sync.Mutex
+	total, held, finished int
+	released              bool
+	open                  chan struct{}
+}
+
+func (g *burstGate) release() {
+	if !g.released {
+		g.released = true
+		close(g.open)
+	}
+}
+
+func (g *burstGate) enter() {
+	g.mu.Lock()
+	if g.released {
+		g.mu.Unlock()
+		return
+	}
+	g.held++
+	if g.held+g.finished >= g.total {
+		g.release()
+	}
+	g.mu.Unlock()
+	<-g.open
+}
+
+func (g *burstGate) finish() {
+	g.mu.Lock()
+	if !g.released {
+		g.finished++
+		if g.held+g.finished >= g.total {
+			g.release()
+		}
+	}
+	g.mu.Unlock()
+}
+
+// the next handler of a request marks the flag the request carries (requests of a burst run side by side)
+type staticNextKey struct{}
 
 func staticContent(id int) []byte {
 	return []byte(fmt.Sprintf("<<file %d>>", id) + strings.Repeat("x", id))
@@ -175,7 +238,7 @@ func execStatic(args []string, lines [][]string) (outs []string) {
 	}
 	needTree := false
 	for _, l := range lines {
-		if len(l) > 0 && l[0] == "REQ" {
+		if len(l) > 0 && (l[0] == "REQ" || l[0] == "BURST") {
 			needTree = true
 		}
 	}
@@ -186,6 +249,8 @@ func execStatic(args []string, lines [][]string) (outs []string) {
 		opened  []string
 		nextRan bool
 		etags   = map[int]string{}
+		fsMu    sync.Mutex
+		gate    atomic.Pointer[burstGate]
 	)
 	spy := arg(3) == "1" || arg(3) == "3"
 	if needTree {
@@ -194,7 +259,7 @@ func execStatic(args []string, lines [][]string) (outs []string) {
 		opts := flamego.StaticOptions{Prefix: unhx(arg(0)), Index: unhx(arg(1)), SetETag: arg(2) == "1"}
 		switch {
 		case spy:
-			opts.FileSystem = spyFS{fs: http.Dir(tree.pub), names: &opened}
+			opts.FileSystem = spyFS{fs: http.Dir(tree.pub), names: &opened, mu: &fsMu, gate: &gate}
 			// a directory called like the documented default ("public") sits in the working directory and holds a file
 			// the configured file system does not have: with a FileSystem given, nothing on disk is Static's business
 			if cwd, err := os.Getwd(); err == nil {
@@ -239,7 +304,11 @@ func execStatic(args []string, lines [][]string) (outs []string) {
 			FileSystem: http.Dir(filepath.Join(tree.base, "elsewhere"))}
 		f.Use(mw)
 		next := func(c flamego.Context) {
-			nextRan = true
+			if p, ok := c.Request().Context().Value(staticNextKey{}).(*bool); ok {
+				*p = true
+			} else {
+				nextRan = true
+			}
 			c.ResponseWriter().WriteHeader(http.StatusNotFound)
 			_, _ = c.ResponseWriter().Write([]byte("NEXT"))
 		}
@@ -293,6 +362,50 @@ func execStatic(args []string, lines [][]string) (outs []string) {
 			outs = append(outs, "join "+hx(path.Join(unhx(l[1]), unhx(l[2]))))
 		case len(l) == 4 && l[0] == "REQ":
 			outs = append(outs, staticRequest(tree, f, spy, &opened, &nextRan, etagOf, unhx(l[1]), unhx(l[2]), l[3]))
+		case len(l) >= 5 && l[0] == "BURST" && (len(l)-2)%3 == 0 && atoi(l[1]) > 0 && f != nil:
+			k, n := atoi(l[1]), (len(l)-2)/3
+			for i := 0; i < n; i++ { // the ETags are looked up beforehand, one at a time
+				if inm := l[4+3*i]; inm != "-" && inm != "j" {
+					etagOf(atoi(inm))
+				}
+			}
+			g := &burstGate{total: k * n, open: make(chan struct{})}
+			watchdog := time.AfterFunc(20*time.Second, func() { g.mu.Lock(); g.release(); g.mu.Unlock() })
+			gate.Store(g)
+			res := make([]string, k*n)
+			var wg sync.WaitGroup
+			for j := 0; j < k*n; j++ {
+				wg.Add(1)
+				go func(j int) {
+					defer wg.Done()
+					defer g.finish()
+					i := j % n
+					var noOpens []string
+					var ran bool
+					res[j] = staticRequest(tree, f, false, &noOpens, &ran, etagOf, unhx(l[2+3*i]), unhx(l[3+3*i]), l[4+3*i])
+				}(j)
+			}
+			wg.Wait()
+			watchdog.Stop()
+			gate.Store(nil)
+			parts := make([]string, n)
+			for i := 0; i < n; i++ {
+				count := map[string]int{}
+				for j := i; j < k*n; j += n {
+					count[res[j]]++
+				}
+				if len(count) == 1 {
+					parts[i] = res[i]
+					continue
+				}
+				var ds []string
+				for o, c := range count {
+					ds = append(ds, fmt.Sprintf("%s x%d", o, c))
+				}
+				sort.Strings(ds)
+				parts[i] = "COPIES-DIFFER[" + strings.Join(ds, " | ") + "]"
+			}
+			outs = append(outs, "burst "+strings.Join(parts, ";"))
 		default:
 			outs = append(outs, "bad-op")
 		}
@@ -305,6 +418,7 @@ func staticRequest(t *staticTree, f *flamego.Flame, spy bool, opened *[]string, 
 	*opened = (*opened)[:0]
 	*nextRan = false
 	req := httptest.NewRequest("GET", "/", nil)
+	req = req.WithContext(context.WithValue(req.Context(), staticNextKey{}, nextRan))
 	req.Method = method
 	req.URL = &url.URL{Path: p}
 	req.RequestURI = ""
@@ -680,8 +794,19 @@ func genStaticSession(r *rand.Rand, emit Emit, pfx, index string, nreq int, smal
 			req("HEAD", "/x"+np+b)
 		}
 	}
-	// tree-directed requests with mutations
+	// tree-directed requests with mutations; in sessions whose file system is observable one BURST somewhere among them:
+	// 2..6 different requests of the same kind (files, directories, missing names, other methods, outside the prefix),
+	// k copies each, all inside the instance at once — a handful, or several hundred — and sequential requests behind it
+	burstAt := -1
+	if spy == 1 || spy == 3 {
+		burstAt = r.Intn(nreq/2 + 1)
+	}
+	var burst []string
+	burstLeft := 0
 	for i := 0; i < nreq; i++ {
+		if i == burstAt {
+			burstLeft = 2 + r.Intn(5)
+		}
 		e := fs[r.Intn(len(fs))]
 		p := "/" + e.rel
 		if e.rel == "." {
@@ -714,6 +839,26 @@ func genStaticSession(r *rand.Rand, emit Emit, pfx, index string, nreq int, smal
 				ix = "index.html"
 			}
 			hint = idOf[path.Join(e.rel, ix)]
+		}
+		if burstLeft > 0 {
+			m := pick(r, []string{"GET", "GET", "GET", "GET", "HEAD", "HEAD", "POST", "get"})
+			inm := "-"
+			switch r.Intn(8) {
+			case 0:
+				inm = "j"
+			case 1:
+				if hint != 0 {
+					inm = fmt.Sprint(hint)
+				}
+			}
+			hint = 0
+			burst = append(burst, fmt.Sprintf("%s %s %s", hx(m), hx(p), inm))
+			burstLeft--
+			if burstLeft == 0 {
+				total := []int{2, 8, 30, 130, 160, 200, 260, 300, 400, 520}[r.Intn(10)]
+				emit("BURST %d %s", (total+len(burst)-1)/len(burst), strings.Join(burst, " "))
+			}
+			continue
 		}
 		req(staticMethods[r.Intn(len(staticMethods))], p)
 	}
